@@ -305,7 +305,12 @@ func (n *TrainedNet) WriteBasm() (string, error) {
 		}
 
 		// Processing remaining nodes
+		remainingNodes := make([]string, 0, len(ProcessedNodes))
 		for node := range ProcessedNodes {
+			remainingNodes = append(remainingNodes, node)
+		}
+		sort.Strings(remainingNodes)
+		for _, node := range remainingNodes {
 			result += fmt.Sprintf("%%meta cpdef %s fragcollapse:%s\n", node, node)
 		}
 
